@@ -57,6 +57,13 @@ pub fn gen(seed: u64, tier: Tier) -> ScenarioSpec {
     if rec.end != EndKind::None && rng.chance(1, 3) {
         rec.irregular.junk_after_end = 1 + rng.below(40) as u8;
         rec.irregular.junk_pseed = rng.next_u64();
+        if rng.chance(1, 3) {
+            // lengths around "1 + Game End size" of some version, starting with the Game End code
+            rec.irregular.junk_after_end = *rng.pick(&[1u8, 2, 3, 4, 6, 7, 8]);
+            rec.irregular.junk_pseed |= 1;
+        } else {
+            rec.irregular.junk_pseed &= !1;
+        }
     }
     if rng.chance(1, 2) {
         rec.irregular.perm_pseed = Some(rng.next_u64());
